@@ -19,6 +19,7 @@ import sqlite3
 
 import petl
 from petl.util.materialise import cache as _cache
+from petlmon import probes  # noqa: E402,F811
 
 from petlmon import catalogue as C
 from petlmon import util
@@ -34,7 +35,7 @@ RULE = ('cases = (view, source size 0-3 rows (+ragged), schedule word over s_i/n
 ASSUMPTIONS = ['single-threaded cooperative schedules (petl has no threads)', 'twin views built from equal sources are deterministic (checked per view)']
 CACHING = ['sort', 'sort-key', 'sort-file-cache', 'sort-reverse-file', 'hashjoin', 'hashleftjoin', 'hashrightjoin', 'cache', 'cache-n2',
            'x:fromdicts-generator', 'x:fromdicts-generator-sample2', 'x:fromdicts-generator-shared-cells', 'join', 'distinct', 'aggregate-buffered']
-REQUIRED = ['views-judged', 'schedules-run', 'fresh-passes-compared'] + ['midfill:' + v for v in CACHING]
+REQUIRED = ['failed-pass:source-failed-midway', 'views-judged', 'schedules-run', 'fresh-passes-compared'] + ['midfill:' + v for v in CACHING]
 EXHAUSTIVE = {'quick': False, 'thorough': False}
 
 _files = {}
@@ -153,8 +154,10 @@ def _all_views():
     return names + sorted(EXTRA)
 
 
-def _build(name, n, ragged):
+def _build(name, n, ragged, wrap=None):
     a = C.table_a(n, ragged=ragged)
+    if wrap is not None:
+        a = wrap(a)
     if name in EXTRA:
         return EXTRA[name](a)
     e = C.by_name(name)
@@ -235,6 +238,12 @@ def cases(ctx):
                         b += 1
                 w += ['x0', 'x1', 's2'] + ['n2'] * (L + 1)
                 yield {'view': name, 'n': n, 'ragged': ragged, 'schedule': _word(' '.join(w))}
+            # a pass during which the source fails once, at data row k, then ordinary passes: nothing the failed pass left behind
+            # (a partial cache, a half-written spill file) may show in what later iterators yield
+            if n >= 2 and (name not in EXTRA or name.startswith(('x:cache', 'x:sort', 'x:biselect', 'x:unjoin', 'x:diff', 'x:hashjoin'))):
+                for k in range(1, n + 1):
+                    for w in ('s0 ' + 'n0 ' * (L + 1) + 's1 s2 ' + 'n1 n2 ' * (L + 1), 's0 s1 ' + 'n1 ' * (L + 1) + 'n0 ' * (L + 1)):
+                        yield {'view': name, 'n': n, 'ragged': ragged, 'schedule': _word(w), 'failpass': k}
             # random three-iterator schedules
             for _ in range(ctx.pick(6, 120)):
                 w, live, started = [], set(), set()
@@ -291,12 +300,37 @@ def judge(case, ctx):
         return {'kind': 'twin-views-differ', 'detail': 'two freshly built identical views, each iterated alone, returned different rows'}
     ctx.op('view:' + name)
     ctx.seen('views-judged')
-    view = _build(name, n, ragged)
+    fp = case.get('failpass')
+    if fp is None:
+        view = _build(name, n, ragged)
+    else:
+        holder = []
+
+        def wrap(a):
+            holder.append(probes.CountingSource(a))
+            return holder[0]
+        view = _build(name, n, ragged, wrap)
+        src = holder[0]
+        src.fail_next_at = fp
+        try:
+            for _ in iter(view):
+                pass
+            ctx.seen('failed-pass:fault-not-reached')
+        except probes.InjectedFault:
+            ctx.seen('failed-pass:source-failed-midway')
+            ctx.mark_nontrivial()
+        except Exception as e:  # noqa: the exception is the observation
+            d = '%s: %s' % (type(e).__name__, e)
+            del e
+            return {'kind': 'iterator-raised', 'iterator': 'failing pass', 'detail': d}
+        src.fail_next_at = None
     its, got, done = {}, {}, set()
     out = []
     last = None
     switches = 0
     midfill = False
+    first_step = {}        # iterator -> global step count at its first next()
+    steps_by = []          # sequence of iterator ids that performed a next()
     for op, i in case['schedule']:
         if op == 's':
             if i in its:
@@ -313,13 +347,17 @@ def judge(case, ctx):
             if last is not None and last != i and last in its and last not in done:
                 switches += 1
             last = i
+            first_step.setdefault(i, len(steps_by))
+            steps_by.append(i)
+            # disturbed: some other iterator took a step between this iterator's first step and this one
+            disturbed = any(j != i for j in steps_by[first_step[i]:])
             try:
                 r = next(its[i])
             except StopIteration:
                 done.add(i)
                 if got[i] != solo:
                     out.append({'kind': 'iterator-diverged', 'iterator': i, 'expected': solo, 'observed': got[i], 'ended': True,
-                                'shape_ok': len(got[i]) == len(solo)})
+                                'shape_ok': len(got[i]) == len(solo), 'steps-interleaved-with-another-iterator': disturbed})
                 continue
             except Exception as e:  # noqa: the exception is the observation
                 done.add(i)
@@ -331,7 +369,8 @@ def judge(case, ctx):
             if k > len(solo) or got[i][k - 1] != solo[k - 1]:
                 done.add(i)
                 out.append({'kind': 'iterator-diverged', 'iterator': i, 'expected': solo, 'observed': got[i], 'ended': False,
-                            'shape_ok': k <= len(solo) and len(got[i][k - 1]) == len(solo[k - 1])})
+                            'shape_ok': k <= len(solo) and len(got[i][k - 1]) == len(solo[k - 1]),
+                            'steps-interleaved-with-another-iterator': disturbed})
         elif op == 'x':
             if i in its:
                 del its[i]
